@@ -29,7 +29,7 @@ class SimFile:
         self._check()
         fs = self.fs
         sim = fs.sim
-        sim.point('fs.write')
+        sim.spoint('fs.write')
         f = fs.faults.hit('fs', op='write', dest=fs.dest_of(self.name), path=self.name)
         if f is not None:
             exc = make_exc(f['exc'], f['id'])
@@ -80,7 +80,7 @@ class SimFile:
     def read(self, n=-1):
         self._check()
         self._flush()
-        self.fs.sim.point('fs.read')
+        self.fs.sim.spoint('fs.read')
         f = self.fs.faults.hit('fs', op='read', path=self.name)
         if f is not None:
             exc = make_exc(f['exc'], f['id'])
@@ -144,7 +144,7 @@ class SimFile:
         if self.closed:
             return
         fs = self.fs
-        fs.sim.point('fs.close')
+        fs.sim.spoint('fs.close')
         self.closed = True
         fs.open_handles.discard(self)
         f = fs.faults.hit('fs', op='close', dest=fs.dest_of(self.name))
@@ -197,7 +197,19 @@ class SimFS:
         for d in self.dests:
             if path.startswith(d + '.'):
                 return d
+        # a long destination name is shortened before the random suffix is
+        # appended: the temporary name then shares all but the last few
+        # characters with the destination and ends in '.' + 8 characters
+        if len(path) > 9 and path[-9] == '.':
+            stem = path[:-9]
+            for d in self.dests:
+                if d.startswith(stem) and len(stem) >= len(d) - 9:
+                    return d
         return None
+
+    def temps_of(self, dest):
+        """Files that are temporaries of this destination (never itself)."""
+        return [f for f in self.files if f != dest and self.dest_of(f) == dest]
 
     def mutated(self, op, path, extra=None):
         self.mutations += 1
@@ -209,7 +221,7 @@ class SimFS:
     # -- operations used through SimOSUtils ------------------------------------
     def open(self, path, mode):
         sim = self.sim
-        sim.point('fs.open')
+        sim.spoint('fs.open')
         f = self.faults.hit('fs', op='open', dest=self.dest_of(path),
                             mode=mode[0])
         if f is not None:
@@ -232,7 +244,7 @@ class SimFS:
         return h
 
     def remove(self, path):
-        self.sim.point('fs.remove')
+        self.sim.spoint('fs.remove')
         f = self.faults.hit('fs', op='remove', dest=self.dest_of(path))
         if f is not None:
             exc = make_exc(f['exc'], f['id'])
@@ -246,7 +258,7 @@ class SimFS:
     def rename(self, src, dst):
         # (state triggers: "a thread is inside rename of this destination")
         self.entered[('rename', self.dest_of(dst))] = True
-        self.sim.point('fs.rename')
+        self.sim.spoint('fs.rename')
         f = self.faults.hit('fs', op='rename', dest=self.dest_of(dst))
         if f is not None:
             exc = make_exc(f['exc'], f['id'])
@@ -258,6 +270,11 @@ class SimFS:
         self.mutated('rename', dst, src)
 
     def getsize(self, path):
+        f = self.faults.hit('fs', op='getsize', path=path)
+        if f is not None:
+            exc = make_exc(f['exc'], f['id'])
+            self.faults.record(f, exc, self.sim.stamp(), op='getsize', path=path)
+            raise exc
         if path not in self.files:
             raise FileNotFoundError(errno.ENOENT, 'No such file or directory', path)
         return len(self.files[path])
